@@ -33,11 +33,11 @@ type Mod struct {
 	Body     []*S
 }
 
-func Leaf(n, t string) *S             { return &S{Kind: "leaf", Name: n, Type: t} }
-func Cont(n string, kids ...*S) *S    { return &S{Kind: "container", Name: n, Kids: kids} }
-func Uses(g string) *S                { return &S{Kind: "uses", Name: g} }
-func Group(n string, kids ...*S) *S   { return &S{Kind: "grouping", Name: n, Kids: kids} }
-func Typedef(n, t string) *S          { return &S{Kind: "typedef", Name: n, Type: t} }
+func Leaf(n, t string) *S              { return &S{Kind: "leaf", Name: n, Type: t} }
+func Cont(n string, kids ...*S) *S     { return &S{Kind: "container", Name: n, Kids: kids} }
+func Uses(g string) *S                 { return &S{Kind: "uses", Name: g} }
+func Group(n string, kids ...*S) *S    { return &S{Kind: "grouping", Name: n, Kids: kids} }
+func Typedef(n, t string) *S           { return &S{Kind: "typedef", Name: n, Type: t} }
 func Aug(target string, kids ...*S) *S { return &S{Kind: "augment", Name: target, Kids: kids} }
 func N(kind, name string, kids ...*S) *S {
 	return &S{Kind: kind, Name: name, Kids: kids}
